@@ -111,7 +111,7 @@ func c13One(c *Ctx, spec connSpec, stream []byte, tag string, limit int) error {
 			c.oracleFail(fmt.Sprintf("delivered a %d-byte message with read limit %d [%s]", len(e.Payload), limit, tag), "oversize-delivered", replay)
 		}
 	}
-	if obs.PeakAlloc > uint64(4*limit)+(2<<20)+uint64(2*len(stream)) {
+	if obs.PeakAlloc > allocBudget(limit, len(stream)) {
 		c.oracleFail(fmt.Sprintf("allocated %d bytes while reading with limit %d [%s]", obs.PeakAlloc, limit, tag), "over-allocation", replay)
 	}
 	inboundCase(c, spec, conn, stream, o, obs, tag)
